@@ -41,6 +41,11 @@ func c16(w *core.World, r *core.Report) {
 	ruleFollowerWriters(w, r)
 	r.Rule("R08.2", "after a restart the follower's store offers only what was completely received: the directory scan ignores temporary snapshots and empty segments (shared with C08)", 3)
 	ruleScan(w, r)
+	r.Rule("R08.3", "what the follower holds after a restart is contiguous: gap truncation keeps the newest run and drops a snapshot the log does not continue (shared with C08)", 3)
+	r.Rule("R08.6", "contiguity includes the snapshot/log joint (shared with C08)", 1)
+	ruleTruncateGap(w, r)
+	r.Rule("R16.9", "a follower that is ahead keeps its copy: before talking to the leader it discards only when it is behind", 1)
+	ruleFollowerAheadKeepsCopy(w, r)
 	r.Rule("R16.7", "every refusal code maps to a non-nil error in the follower's response handler (all paths)", 5)
 	ruleHandleResp(w, r)
 	r.Rule("R16.8", "a refusal frame ends the exchange on the leader (handleError given a non-nil error, result returned)", 4)
@@ -700,4 +705,75 @@ func flowAll(v ssa.Value, pred func(ssa.Value) bool) bool {
 		}
 	}
 	return true
+}
+
+// ---------------------------------------------------------------- R16.9 a follower that is ahead never discards its copy before it talks to the leader
+
+// ruleFollowerAheadKeepsCopy: before it contacts the leader the follower may
+// give up its own copy only when it is far *behind* (the leader would have to
+// send too much). A follower that holds more than the leader must keep it: the
+// hand-over is decided by the leader from the offset the follower reports
+// (R16.2). Every DelRunId in preSync must therefore be under
+// (leader offset − follower offset) > c with c >= 0, on the signed difference.
+func ruleFollowerAheadKeepsCopy(w *core.World, r *core.Report) {
+	f := fn(w, r, "(*syncer.ReplicaFollower).preSync")
+	if f == nil {
+		return
+	}
+	leader := paramOf(f, "StartPoint", "leaderSp")
+	n := 0
+	for _, s := range core.Sites(f, false) {
+		if !s.Common().IsInvoke() || s.Method != "DelRunId" {
+			continue
+		}
+		n++
+		bad := ""
+		paths := 0
+		okEnum := core.EnumPathsN(f.Blocks[0], 0, 100000, core.Unroll, func(p *core.Path) {
+			on := false
+			for _, in := range p.Instrs {
+				if in == s.Instr {
+					on = true
+				}
+			}
+			if !on || bad != "" {
+				return
+			}
+			paths++
+			behind := false
+			for _, fct := range factsBefore(p, s.Instr) {
+				c, ok := core.FactCmp(fct)
+				if !ok || c.Op != token.GTR {
+					continue
+				}
+				k, isK := core.ConstInt(p.Resolve(c.Y))
+				if !isK || k < 0 {
+					continue
+				}
+				d, isB := core.Unwrap(p.Resolve(c.X)).(*ssa.BinOp)
+				if !isB || d.Op != token.SUB {
+					continue
+				}
+				fromLeader := leader != nil && core.DependsOn(d.X, func(v ssa.Value) bool { return v == ssa.Value(leader) || core.Unwrap(v) == ssa.Value(leader) })
+				fromOwn := core.DependsOn(d.Y, func(v ssa.Value) bool {
+					call, ok := v.(*ssa.Call)
+					return ok && call.Call.IsInvoke() && call.Call.Method.Name() == "StartPoint"
+				})
+				if fromLeader && fromOwn {
+					behind = true
+				}
+			}
+			if !behind {
+				bad = "the follower discards its own copy before talking to the leader on a path that did not establish that it is behind the leader (leader offset − own offset > c on the signed difference): a follower that holds more than the leader is wiped instead of being offered the leadership"
+			}
+		})
+		if !okEnum || paths == 0 {
+			r.Undecided("preSync/discard-only-when-behind", s.Pos(), "paths to the discard could not be enumerated (%d)", paths)
+			continue
+		}
+		r.Check(bad == "", "preSync/discard-only-when-behind", s.Pos(), "%s", bad)
+	}
+	if n == 0 {
+		r.OK("preSync/discard-only-when-behind", f.Pos(), "the follower never discards its copy before talking to the leader")
+	}
 }
